@@ -3,7 +3,7 @@
 # prints one line per run: property seed rc wall verdict-line. Any rc!=0 on the unchanged tree is a false alarm to fix.
 tier=$1; par=$2; shift 2
 cd "$(dirname "$0")/.."
-props=$(python3 -c "import json;print(' '.join(c['property_id'] for c in json.load(open('MANIFEST.json'))['checks']))")
+props=${PROPS:-$(python3 -c "import json;print(' '.join(c['property_id'] for c in json.load(open('MANIFEST.json'))['checks']))")}
 for s in "$@"; do for p in $props; do echo "$p $s"; done; done | xargs -P $par -L 1 bash -c '
   p=$0; s=$1; t0=$(date +%s); out=$(VERIF_SEED=$s ./check $p '$tier' 2>&1); rc=$?; t1=$(date +%s)
   echo "$p seed=$s rc=$rc wall=$((t1-t0))s $(echo "$out" | grep -E "^(VIOLATION|OK|KNOWN)" | head -2 | tr "\n" " " | cut -c1-200)"'
